@@ -37,6 +37,20 @@ def run(ctx):
     r4(ctx)
     r6(ctx)
     ctx.min_instances('C11.R6', 8)
+    from fractions import Fraction
+    from . import _ductftf
+    _ductftf.check(
+        ctx, 'C11.R7', 'region_unrodded', 'SingleNodeHomogeneous.__init__',
+        'duct_ftf',
+        lambda n, V: {'self.duct_ftf': [V[2 * n - 2], V[2 * n - 1]],
+                      'self.duct_thickness': Fraction(
+                          V[2 * n - 1] - V[2 * n - 2], 2)})
+    ctx.min_instances('C11.R7', 3)
+    ctx.decided.append(
+        'R7 the wall the low-fidelity regions conduct through is the outer '
+        'duct: its flat-to-flat pair is the two largest input distances and '
+        'its thickness is half their difference, for every order of the '
+        'input (finite-domain evaluation over all permutations, 1-3 ducts)')
     ctx.min_instances('C11.R3', 2)
     ctx.min_instances('C11.R4', 12)
 
